@@ -76,17 +76,26 @@ REEVAL_SUFFIX = "semantics-re-evaluate-an-operand-in-the-map-built-so-far"
 # bit set; the re-evaluation family is one coding pattern (fmap(fmap(x)), fmap[mem(fmap(a))]) repeated in the
 # functions of an ISA's asm.py.  The sets of mnemonics and classes met keep growing with the seeds, so the
 # default is one signature per ISA; the mnemonic that computed the differing value is in the case ("culprit").
-#   "isa": C02:<isa>:<suffix>     "isa+class": C02:<isa>:<class>:<suffix>
+#   "global": C02:<suffix>     "isa": C02:<isa>:<suffix>     "isa+class": C02:<isa>:<class>:<suffix>
 #   "isa+mnemonic+class": C02:<isa>:<culprit mnemonic>:<class>:<suffix>
-FAMILY_SCOPE = "isa"
+# The signedness flag lives in cas/expressions.py, whatever the ISA (like the store-lost defect lives in the
+# mapper): one global signature.  The re-evaluation pattern lives in each ISA's asm.py: one per ISA.
+FAMILY_SCOPE = {"signedness-flag-carried-between-steps": "global",
+                "semantics-re-evaluate-an-operand-in-the-map-built-so-far": "isa"}
+ARMV7_PC_SIG = "C02:armv7:<write to pc>:interworking-decided-only-when-pc-is-constant"
 
 
 def family_signature(isa_name, mnemonic, cls, suffix):
-    if FAMILY_SCOPE == "isa":
+    scope = FAMILY_SCOPE.get(suffix, "isa")
+    if scope == "global":
+        return "C02:%s" % suffix
+    if scope == "isa":
         return "C02:%s:%s" % (isa_name, suffix)
-    if FAMILY_SCOPE == "isa+class":
+    if scope == "isa+class":
         return "C02:%s:%s:%s" % (isa_name, cls, suffix)
     return "C02:%s:%s:%s:%s" % (isa_name, mnemonic, cls, suffix)
+
+
 SETTINGS = [(True, True), (True, False), (False, True), (False, False)]     # (noaliasing, memtrace)
 LOW_N = 0x20000          # window 1: addresses [0, LOW_N)
 HIGH_N = 0x10000         # window 2: the top HIGH_N bytes of the address space (negative displacements)
@@ -906,11 +915,32 @@ def _handle_class(ck, ctx, stats, mode, bss, mn, sid, setting, cls, res, allow_s
                     ck.count("violation-instance-of-a-single-instruction-finding." + cls)
                     return ksig
         pcd = [x for x in rs.diffs if x[0] == "pc"]
-        if cls == "pc" and ctx.name == "armv7" and rs.exc is None and pcd and all(x[2] == x[3] | 1 and not x[3] & 1 for x in pcd):
+        armv7_iw = False
+        if ctx.name == "armv7" and rs.exc is None:
             # armv7 __check_state: `if address.bit(0) == 1: … fmap[pc_] = fmap(pc_ ^ 1)` is decided in Python,
-            # so interworking (clear bit 0, switch ARM/Thumb) only happens when pc is already a constant;
-            # every instruction that writes pc shows it
-            sig = "C02:armv7:<write to pc>:pc:bit0-cleared-only-when-pc-is-constant"
+            # so interworking (clear bit 0 of pc, switch ARM/Thumb in `internals`) only happens when pc is
+            # already a constant; every instruction that writes pc shows it, and so do the instructions that
+            # follow (their pc offset depends on the instruction-set state)
+            if cls == "pc" and pcd and all(x[2] == x[3] | 1 and not x[3] & 1 for x in pcd):
+                armv7_iw = True
+            else:
+                try:
+                    conf.Cas.noaliasing, conf.Cas.memtrace = setting
+                    m_ = mapper()
+                    for i_ in ctx.decode(mode, cur):
+                        i_(m_)
+                    ia_ = dict(ctx.I.cpu.internals)
+                    ins_ = ctx.decode(mode, cur)
+                    B_ = ctx.state(sid)
+                    for i_ in ins_:
+                        i_(B_)
+                    armv7_iw = ia_.get("isetstate") != ctx.I.cpu.internals.get("isetstate")
+                except _Timeout:
+                    raise
+                except Exception:
+                    pass
+        if armv7_iw:
+            sig = ARMV7_PC_SIG
             note = " (armv7 interworking decided in Python on a possibly symbolic pc)"
             extra = {"culprit": cmn[-1]}
             w = None
